@@ -9,7 +9,7 @@ Three exhaustive families:
          vs the same summary of the circuit at that level.  For levels inside the user pipeline the circuit is obtained
          independently (transforms applied by hand to the qfunc's tape); for gradient/device levels from construct_batch.
   arith  estimator ``Resources`` add_series/add_parallel/multiply_series/multiply_parallel for all pairs of a 6-element set and
-         scalars {0,1,3}; ``resource.Expression`` + and * for all pairs of a 13-element set (evaluation homomorphism on a grid);
+         scalars {0,1,3}; ``resource.Expression`` + and * for all pairs of a 14-element set (evaluation homomorphism on a grid);
          symbolic SpecsResources totals / subs.
 """
 import itertools
@@ -435,7 +435,7 @@ def check_arith(spec):
 EXPRS = [
     {}, {"": 1}, {"": 3}, {"": -2},
     {"a": 1}, {"a": 2}, {"a": 1, "": 1}, {"a": -1},
-    {"ab": 1}, {"ab": 1, "b": -1}, {"a": 1, "b": 1}, {"aa": 1, "b": 2, "": -1}, {"ba": 2, "ab": -2, "a": 1},
+    {"ab": 1}, {"ab": 1, "b": -1}, {"a": 1, "b": 1}, {"aa": 1, "b": 2, "": -1}, {"ba": 2, "a": 1}, {"a": 1, "b": -1},
 ]
 GRID = [-1, 0, 1, 2]
 
